@@ -83,7 +83,11 @@ def c12(work, tier, seed):
                                 continue
                             user = "7" if any("PH" in h for h in hosts) else ("bob@corp.example" if split else "user1")
                             peer, xff = addrs[len(scripts) % len(addrs)]
-                            scripts.append({"id": "cn%05d" % len(scripts), "kind": "connect", "cfg": cfg, "session": session, "param": param, "user": user, "peerIP": peer, "xff": xff,
+                            c2 = cfg
+                            if len(scripts) % 5 == 3:
+                                # a login-name template: the file carries the rendered name, the token still the user's own
+                                c2 = dict(cfg, template=["{{ username }}@corp.example", "CORP\\{{ username }}"][len(scripts) % 2])
+                            scripts.append({"id": "cn%05d" % len(scripts), "kind": "connect", "cfg": c2, "session": session, "param": param, "user": user, "peerIP": peer, "xff": xff,
                                             "replay": session == "authed" and sel != "signed"})
     # sessions that are not logged in are exercised right after logged-in ones were served on the same gateway (what a
     # request is answered depends on its own session only): interleave them per configuration
